@@ -28,6 +28,7 @@ CONFIGS = {
     "K4": {"name": "avx", "rustflags": "-C target-feature=+avx", "features": []},
     "K5": {"name": "avx2", "rustflags": "-C target-feature=+avx2", "features": []},
     "K6": {"name": "portable", "rustflags": "-C target-feature=-sse2", "features": []},
+    "K7": {"name": "force32-rel", "rustflags": "-C overflow-checks=off -C debug-assertions=off", "features": ["force-32bits"]},
 }
 
 
